@@ -153,7 +153,7 @@ fn main() {
             std::process::exit(check::cmd_check(std::path::Path::new(&root), &prop, &tier, seed, threads));
         }
         "miri-threads" => {
-            match l4::thread_scenario() {
+            match l4::thread_scenario().and_then(|_| l4::thread_scenario_b()) {
                 Ok(()) => println!("thread scenario ok"),
                 Err(e) => {
                     println!("thread scenario FAILED: {}", e);
